@@ -37,6 +37,10 @@ RULES = {
     "G4c": R3.rule_G4c,
     "W6": R3.rule_W6,
     "W7": R3.rule_W7,
+    "W8": R3.rule_W8,
+    "G7": R3.rule_G7,
+    "A12": R3.rule_A12,
+    "D10": R3.rule_D10,
     "N4": T.rule_N4,
     "N6": N.rule_N6,
     "N7": N.rule_N7,
@@ -133,16 +137,16 @@ PROPS = {
         "blank-line grouping are value-dependent and not decided. Also (D8): the column counters, which count characters, never receive a UTF-8 byte length (origin analysis of every store into the column fields).",
     },
     "C14": {
-        "rules": ["D1", "D5", "W2", "N5", "D1c"],
+        "rules": ["D1", "D5", "W2", "N5", "D1c", "D10"],
         "claim": "Decides the bytes-vs-characters clause of C14 over the data crate: no UTF-8 byte length (str::len / String::len) reaches a "
         "character-count sink (take/skip/nth on chars(), a CharList(n) header, the result of get_char_list_len), and the literal parsers "
         "contain no truncating char->u8 cast; (D5) an escape accumulator that has been decoded is emptied before it accumulates the next "
         "escape, on every path of the literal parsers (typestate over their MIR); (W2) a number literal is stored as the number it spells: the "
         "hash that alone keys SimpleGarnishData's constant table separates every two numbers the type distinguishes (so `5.0` after `5` is not "
-        "handed the Integer's address). Radix parsing and round-trips are value-level and not decided. Also (N5): the literal parsers hand a parsed integer to the number type only through a conversion whose From impl does not narrow with an `as` cast (an integer literal outside i32 becomes a float, it does not wrap). A CharList(n) header written before a run of Char cells counts the very string whose characters are written (D1c).",
+        "handed the Integer's address). Radix parsing and round-trips are value-level and not decided. Also (N5): the literal parsers hand a parsed integer to the number type only through a conversion whose From impl does not narrow with an `as` cast (an integer literal outside i32 becomes a float, it does not wrap). A CharList(n) header written before a run of Char cells counts the very string whose characters are written (D1c). Also (D10, character accounting in the literal parsers): every iteration of a loop over a literal's characters appends to the output, changes the parser's state, fails or stops; the only documented drops (the brace of a \\u{..} escape, raw line feeds / tabs laying out a single-quoted text) are counted per function, so a byte-list or char-list literal cannot silently lose characters it spells.",
     },
     "C15": {
-        "rules": ["D2", "D3", "W1", "W2", "D3b", "W6", "W7"],
+        "rules": ["D2", "D3", "W1", "W2", "D3b", "W6", "W7", "W8", "D1", "D1c"],
         "claim": "Decides four structural clauses of C15: (D2) every index/slice of BasicGarnishData's raw heap vector is rebased on a "
         "StorageBlock.start (followed through locals, parameters to their call sites, struct fields to their initialisers); (D3) the six "
         "push_to_*_block siblings and the six copy stanzas of reallocate_heap each use one block in every role and agree on the "
@@ -150,27 +154,27 @@ PROPS = {
         "SimpleGarnishData's value list is append-only; (W2) every hand-written Hash impl inside the key of SimpleGarnishData's hash-keyed "
         "constant table feeds the hasher a loss-free encoding of the whole payload (no narrowing cast, rounding, or ignored payload), "
         "the necessary condition for 'a different constant gets a different address' since cache_add never compares the stored value. "
-        "Correctness for every interleaving/growth policy is not decided. Also (D3b): every returning path through reallocate_heap that installs new extents for one block installs them for all six (no shortcut that moves some blocks only). The same (W6) under this property: a returned address is an address written. Also (W7): a block's cursor never passes its size (by-one advance under that block's capacity test, by-n advance under a fit test), so a later push cannot land in the neighbouring table's cells.",
+        "Correctness for every interleaving/growth policy is not decided. Also (D3b): every returning path through reallocate_heap that installs new extents for one block installs them for all six (no shortcut that moves some blocks only). The same (W6) under this property: a returned address is an address written. Also (W7): a block's cursor never passes its size (by-one advance under that block's capacity test, by-n advance under a fit test), so a later push cannot land in the neighbouring table's cells. Also (W8): the constant table of SimpleGarnishData is written only together with the push of the value it names ('an equal constant returns the same address, a different constant a different address' needs every entry to name a cell holding the hashed value). Also (D1 / D1c): the CharList(n) header BasicGarnishData writes counts characters, of the very string whose characters follow it - a header that claims more cells than were written makes the value absorb whatever is pushed next.",
     },
     "C16": {
-        "rules": ["G4", "T14", "D9", "G4c"],
+        "rules": ["G4", "T14", "D9", "G4c", "G7"],
         "claim": "Decides the 'absent is not an error' clause of C16: inside both implementations of get_list_item / "
         "get_list_item_with_symbol / get_list_len / get_list_item_iter, their list helpers, and the runtime's index_list / "
         "access_with_symbol, the locally constructed errors are exactly the reviewed ones (not-a-list, corrupt cell); any other "
         "constructed error - in particular one that depends on the index value or the item kind - is reported; and every "
         "match-based comparator the data crate hands to a sort or binary search (the association slots of a list, the two symbol "
         "tables) is antisymmetric: mirrored arguments get opposite orderings (T14) - a necessary condition for the sorted prefix the "
-        "key lookup searches. Order, length and that every present key is found are not decided beyond that. Also: match-based sort comparators order two keyed cells ascending by their first payload field, the key the binary search compares (T14); the end handed to Extents::new is a length / exclusive bound, never `len - 1` (D9). A function that hands a caller-supplied number to the data's get_*_item tests it against zero first (G4c, sibling agreement of the four index_* functions) - the data impls clamp a negative number to index 0.",
+        "key lookup searches. Order, length and that every present key is found are not decided beyond that. Also: match-based sort comparators order two keyed cells ascending by their first payload field, the key the binary search compares (T14); the end handed to Extents::new is a length / exclusive bound, never `len - 1` (D9). A function that hands a caller-supplied number to the data's get_*_item tests it against zero first (G4c, sibling agreement of the four index_* functions) - the data impls clamp a negative number to index 0. Also (G7): wherever a concatenation is taken apart by hand (get_concatenation destructured into two used operands) both operands get the same treatment - neither side is read as a single item while the other is walked on - so look-ups and indexing see the items of a concatenation nested on either side.",
     },
     "C11": {
-        "rules": ["T5", "D1", "T15", "W4", "A11"],
+        "rules": ["T5", "D1", "T15", "W4", "A11", "W2"],
         "claim": "Decides the dispatch clauses of C11: the (type, type) dispatch of data_equal (outer match and the nested slice x slice "
         "match) is symmetric, its catch-all is the constant false, mirrored arms hand the same value roles and typed accessors to the "
         "same helper, and `!=` pushes the negation of the routine `==` pushes; the length that decides 'a single character equals the "
         "one-element list of it' is a character count, never a byte length (D1); the element-wise walk of two sequences loses no element: "
         "no iterator is consulted again (to decide which operand is longer) after a lossy adaptor - zip, take_while, map_while - ran over a "
         "borrow of it, so an operand exactly one element longer is never taken for equal (T15). Reflexivity/transitivity and element-wise "
-        "meaning depend on iterator contents and are not decided. Also (W4): the walk that flattens a concatenation into its item sequence expands every node it meets, without a visited set - a shared sub-sequence counts as often as it is referenced, which structural equality needs. Arms of the equality dispatch that queue component pairs queue them unconditionally (T5 conditional-queue) - no shortcut from the components' types around the dispatch that knows the cross-type equalities; the equality work list itself drains to its mark (A11).",
+        "meaning depend on iterator contents and are not decided. Also (W4): the walk that flattens a concatenation into its item sequence expands every node it meets, without a visited set - a shared sub-sequence counts as often as it is referenced, which structural equality needs. Arms of the equality dispatch that queue component pairs queue them unconditionally (T5 conditional-queue) - no shortcut from the components' types around the dispatch that knows the cross-type equalities; the equality work list itself drains to its mark (A11). Also (W2): values are compared through their addresses' contents, and SimpleGarnishData hands equal-hash constants the same address - the hash that alone keys that table is computed from a loss-free encoding of the whole value, so two different numbers are never conflated into one cell (which would make `==` true for them).",
     },
     "C19": {
         "rules": ["T8", "W1", "D2"],
@@ -204,14 +208,14 @@ PROPS = {
         "instruction it should point at. Root-stack exhaustion depends on program shape and is not decided.",
     },
     "C20": {
-        "rules": ["D4", "W1", "W3", "W2"],
+        "rules": ["D4", "W1", "W3", "W2", "W8"],
         "claim": "Decides the index-provenance clause of C20: every index a build emits or reports (jump operands, expression values, the "
         "entry index, jump-table entries) originates from the data object's current table lengths or from its own add_* results, never "
         "from a literal or an absolute position (D4), and build mutates earlier state only through get_from_jump_table_mut on its own "
         "placeholders (W1); a constant built into a shared data object starts from an empty accumulator: every function that starts a "
         "string / byte-list / list accumulation stores a fresh Some(collection) on every path, never conditionally on what an earlier, "
         "possibly aborted, accumulation left in the field (W3, must-pass-through on the MIR CFG). That each program computes the same result "
-        "as when built alone is not decided. Also (W2): the hash that alone keys SimpleGarnishData's constant table separates every two numbers the type distinguishes (per-variant feeds or the discriminant), so a later program's literal cannot be handed an earlier program's different constant.",
+        "as when built alone is not decided. Also (W2): the hash that alone keys SimpleGarnishData's constant table separates every two numbers the type distinguishes (per-variant feeds or the discriminant), so a later program's literal cannot be handed an earlier program's different constant. Also (W8): SimpleGarnishData's constant table (hash -> address) is written only by the function that pushes the hashed value and records the address it was pushed at, so a program built later into the object (or into a clone of it) is never handed a cell that holds a different constant.",
     },
     "C06": {
         "rules": ["A1", "A6", "D6", "T8", "A11", "D7", "T11"],
@@ -230,13 +234,13 @@ PROPS = {
         "The dynamic depth of whole programs is not decided. Also (A11): the work-list helpers whose net effect A1 takes on trust (the concatenation walker, the equality work list) return Ok only after leaving a `get_register_len() > mark` test on its exit edge and pop only inside such a guard, so they neither leave borrowed operands behind nor pop their caller's. Also (D7): only the else-chain handler forwards a node's conditional_parent - a conditional wrongly marked as chain member loses its fall-through PutValue and the enclosing jump then runs with one operand too few; and (T11): every root is closed by its end-instruction list, the end instruction being skipped only when the identical pair was already emitted by this root and no join point of an else chain continues at the next instruction (otherwise the join aliases the next root and a branch re-enters itself, growing the operand stack forever).",
     },
     "C08": {
-        "rules": ["A4", "A5", "A1", "G3", "T2", "G3b"],
+        "rules": ["A4", "A5", "A1", "G3", "T2", "G3b", "A12"],
         "claim": "Decides the structural clauses of C08 on all instruction functions: on every path the host's defer_op is called at most "
         "once, with the Instruction constant that dispatches to that function, with (type, address) of the left operand then the "
         "right operand in source order (A4, A5); after a declining host exactly one unit is pushed and after an accepting host none "
         "(A1 arity on the declined / accepted edges); and for every one of the 21x21 operand type pairs of every instruction function "
         "the dedicated UnsupportedOpTypes error cannot reach the function's Err return (G3). Other error sources (data-impl errors) "
-        "are not decided. Also (A4 unit-without-offer): in a function that defers undefined combinations, no path answers unit having neither asked the host nor read / built any value (flags-only interpretation); `type_cast`'s defined cast of unit is the one reviewed exception. A declined offer is answered with the unit value made by add_unit on every path, never with a placeholder address (A4 declined-without-unit). Also (G3b, offer matrix): for every deferring instruction and every tuple of the 21 operand types, abstract interpretation of the handler under that type assumption shows an Ok outcome without a defer_op offer only for the tuples the language defines (spec/defined_operands.json) - so no undefined combination is answered (with unit or anything else) without the host having been asked.",
+        "are not decided. Also (A4 unit-without-offer): in a function that defers undefined combinations, no path answers unit having neither asked the host nor read / built any value (flags-only interpretation); `type_cast`'s defined cast of unit is the one reviewed exception. A declined offer is answered with the unit value made by add_unit on every path, never with a placeholder address (A4 declined-without-unit). Also (G3b, offer matrix): for every deferring instruction and every tuple of the 21 operand types, abstract interpretation of the handler under that type assumption shows an Ok outcome without a defer_op offer only for the tuples the language defines (spec/defined_operands.json) - so no undefined combination is answered (with unit or anything else) without the host having been asked. Also (A12): the data objects' defer_op returns the host's answer unchanged, so 'declined' reaches the runtime exactly when the host declined.",
     },
     "C10": {
         "rules": ["T4", "T9", "A1", "T11"],
@@ -248,12 +252,12 @@ PROPS = {
         "re-joins after the out-of-line operand / arm is always emitted. Order and at-most-one-arm in else-chains are not decided. The Tis that makes the out-of-line right operand of && / || a boolean is added on every path (must-pass-through before the right root is constructed), never 'unless the operand is already boolean'.",
     },
     "C17": {
-        "rules": ["A4", "A1", "T2", "T10", "W5", "W6"],
+        "rules": ["A4", "A1", "T2", "T10", "W5", "W6", "A12"],
         "claim": "Decides the per-occurrence clauses of C17: in `resolve` the host callback is reached only on paths where the input-value "
         "lookup pushed nothing, at most once, with the symbol stored at the instruction's own operand, and a declining host leaves "
         "exactly one unit (A4 + A1); in apply the host's apply callback receives the external's number and the right operand, once; "
         "identifiers are compiled to Resolve carrying the symbol of their own text and properties to Put (T2 wiring, T10 attribution). "
-        "Counts and order across a whole program are not decided. Also (W5): every function that builds a SimpleGarnishData from another one carries over each function-pointer field (resolver, op handler), so the documented callbacks still fire on a clone. BasicGarnishData's add_* / parse_add_* return the address a store primitive returned for the value they wrote, never an address computed from stored indices (W6) - the operand of the Resolve the builder emits must stay a symbol.",
+        "Counts and order across a whole program are not decided. Also (W5): every function that builds a SimpleGarnishData from another one carries over each function-pointer field (resolver, op handler), so the documented callbacks still fire on a clone. BasicGarnishData's add_* / parse_add_* return the address a store primitive returned for the value they wrote, never an address computed from stored indices (W6) - the operand of the Resolve the builder emits must stay a symbol. Also (A12): both data implementations hand the host's answer to the runtime unchanged - resolve / apply / defer_op return the callback's own result (or false when no host is consulted), never a value recomputed from the object's state.",
     },
     "C09": {
         "rules": ["N1", "N2", "N3", "W2", "N6", "N7"],
